@@ -836,3 +836,9 @@ PROPS["C13"]["verus_units"] = list(PROPS["C13"]["verus_units"]) + ["value_record
 PROPS["C13"]["claim"] = PROPS["C13"]["claim"] + " Apply parses as validate does (Verus, unbounded): for every record kind of a value table (header, tombstone, multipart part, sized entry) ValueTable::enact_plan consumes exactly the bytes validate_plan consumed, takes only in-range slices of the entry buffer and writes at most one slot -- given that validation accepted the record; IndexTable / RefCountTable::enact_plan consume 8 + ENTRY_BYTES*popcount(mask) bytes like their validation and skip functions, terminate, and write every slot inside the 512-byte chunk (for the ref-count table given the validated mask)."
 PROPS["C13"]["level_note"] = PROPS["C13"]["level_note"].replace("enact_plan is not run (mmap / 32 KiB-buffer cost); 'apply parses as validate does' is argued from the identical code shape, not proved.", "The parsing part of the three enact_plan functions is proved on verbatim fragments by Verus; locating / growing / mapping the file in front of those fragments (mmap, raw pointers) is not covered.")
 PROPS["C13"]["does_not_cover"] = ["CRC and record sequencing", "the file-locating part of enact_plan (open / grow / mmap, pointer arithmetic)", "file discovery / ordering / discarding in Log::open"]
+
+# ---------------------------------------------------------------- U53
+M_COLUMN.harnesses.append(H("u53_validate_rejects_unrepresentable_index_size", "U53", kind="proof", shape="HashColumn::validate_plan on an index record naming any index size >= 64 - MIN_INDEX_BITS (all 208 values), any chunk number"))
+UNIT_META["U53"] = {"functions": ["column::HashColumn::validate_plan (index-record branch)"], "assumes": ["HashColumn::trigger_reindex replaced by a contract that must not be reached", "LogReader::read by contract"]}
+PROPS["C13"]["kani_units"] = list(PROPS["C13"]["kani_units"]) + ["U53"]
+PROPS["C13"]["claim"] = PROPS["C13"]["claim"] + " HashColumn::validate_plan rejects an index record whose table id names an index size the log overlay has no slot for (complete over all such sizes) without starting an index growth."
